@@ -104,6 +104,8 @@ OKs(wf) == IF wf THEN {<<TRUE, TRUE>>, <<FALSE, TRUE>>, <<TRUE, FALSE>>} ELSE {<
 OpSetF(mx, wf) ==
     {[op |-> "alloc", a |-> a, nm |-> N(n), sz |-> 4, ok |-> k] : a \in OBJ, n \in {0, 2, mx}, k \in OKs(wf)}
     \cup {[op |-> "alloc", a |-> a, nm |-> h, sz |-> z, ok |-> <<TRUE, TRUE>>] : a \in OBJ, h \in Huge, z \in {1, 4}}
+    \* one-byte elements, counts so close to SIZE_MAX that only the bookkeeping header makes the byte count wrap
+    \cup {[op |-> "alloc", a |-> a, nm |-> [k |-> "max", n |-> d], sz |-> 1, ok |-> <<TRUE, TRUE>>] : a \in OBJ, d \in {8, 15, 22}}
     \* a few elements of 2^60 / 2^63 bytes: the byte count wraps although the element count is small
     \cup {[op |-> "alloc", a |-> a, nm |-> N(16), sz |-> -60, ok |-> <<TRUE, TRUE>>] : a \in OBJ}
     \cup {[op |-> "alloc", a |-> a, nm |-> N(2), sz |-> -63, ok |-> <<TRUE, TRUE>>] : a \in OBJ}
